@@ -1,4 +1,4 @@
-HOOK_COMMITS = ['a5e1d44', '40b55f7']
+HOOK_COMMITS = ['a5e1d44', '40b55f7', '1011c63']
 NOT_APPLICABLE = {}
 PROOF_NOTE = ('Trusted: Lean kernel; axioms limited to propext/Classical.choice/Quot.sound (audited each run); the hand-written model is tied to the Go code by '
               'differential correspondence on the explored cases (not a proof about the Go source); ')
@@ -94,5 +94,19 @@ META = {
                 'direct oracle comparing kind and message with the plain chain. Two proxy shapes are known findings (theorem is partial there: property found and callable).',
         'note': PROOF_NOTE + 'the property-call proxy (native Wrappable._missing) is covered by the correspondence; known findings: non-callable and absent properties through try.',
         'technique': 'Lean 4 proof (fold/fmap commutation, induction over the step list) + random chain/accessor correspondence + same-run plain-vs-wrapped oracle',
+    },
+    'C01': {
+        'text': 'PARTIAL. Proved: obligations over regenerated facts (every built-in prototype shell is initialised; every built-in closure indexes args only below its length guards, 140 closures) and the no-panic theorems of the indexing '
+                'component for all inputs. Explored, not proved: the whole interpreter through a registry sweep (~130k property calls over a value pool), a program generator with a malformed stream, stdin, and the three entry points, '
+                'with recover() as oracle.',
+        'note': 'Trusted: Lean kernel, standard axioms, the go/ast extractor, recover() as panic observer. Go runtime fatals and third-party libraries are outside the model; fuel-exhausting programs are discarded.',
+        'technique': 'Lean 4 proof over regenerated built-in/arity tables + component no-panic theorems; exhaustive registry sweep and generated/malformed programs for the rest (partial)',
+    },
+    'C06': {
+        'text': 'Theorems for every growth policy and every history of array-producing operations built the repaired way (results assembled in a fresh slice): the contents of every published array value never change; the pre-repair '
+                'Arr#+ is the kernel-checked counter-example. Generated obligation: the in-place write sites of object/, props/, evaluator/, di/ are exactly the 18 reviewed ones. Runtime monitor on the implementation: pointer-identity '
+                'fingerprints of all reachable values before/after each of ~130k built-in calls in one history.',
+        'note': 'Trusted: Lean kernel, standard axioms, the extractor and the reviewed site list, the harness fingerprint. Objects/maps are not in the Lean model (inventory + monitor only).',
+        'technique': 'Lean 4 proof (Go slice/append heap model, invariant over operation histories) + regenerated write-site inventory + runtime immutability monitor',
     },
 }
